@@ -141,7 +141,7 @@ def run_drv(work, binary, tier, seed, tag, only=None):
         extra = ["-cursor", cursor] + (["-except", "\n".join(k["id"].split("/", 1)[0] + "/*" for k in killers)]
                                        if killers else [])
         try:
-            out = run_driver(binary, args + extra, timeout=3000)
+            out = run_driver(binary, args + extra, timeout=3000, env={"VERIF_WORK": work.dir})
             break
         except Infra as e:
             msg = str(e)
@@ -158,7 +158,7 @@ def run_drv(work, binary, tier, seed, tag, only=None):
                 open(of, "w").write(kid + "\n")
                 try:
                     run_driver(binary, ["run", "-trace", work.path("killer_%s_%d.ndjson" % (tag, n)), "-tier", tier, "-seed", seed,
-                                        "-fixtures", FIXTURES, "-only", of], timeout=600)
+                                        "-fixtures", FIXTURES, "-only", of], timeout=600, env={"VERIF_WORK": work.dir})
                 except Infra as e2:
                     if "fatal error:" in str(e2) or "panic:" in str(e2) or "goroutine " in str(e2):
                         again += 1
